@@ -87,6 +87,35 @@ fn score_all_routes_unguarded(a: &Content, b: &Content) -> Result<u32, String> {
         guarded(|| td.init_from(&dsa))?;
         routes.push(("target(init_from short dual).compare(long)", guarded(|| td.compare(&lnb))?));
     }
+    // mixed forms: one operand only fits the long form (block hash 2 above 32 symbols), the other is given in the
+    // short form; the target is not generic, so every width the operand type suggests must be ignored
+    if fits_short(b) && !fits_short(a) {
+        let sb = guarded(|| RawFuzzyHash::new_from_internals_near_raw(b.0, &b.1, &b.2))?;
+        let snb = FuzzyHash::from(sb);
+        let dsb = guarded(|| DualFuzzyHash::from_raw_form(&sb))?;
+        routes.push(("target(long-only).compare(short)", guarded(|| t.compare(&snb))?));
+        routes.push(("target(long-only).compare(short dual)", guarded(|| t.compare(&dsb))?));
+        if !equal {
+            routes.push(("target(long-only).compare_unequal(short)", guarded(|| t.compare_unequal(&snb))?));
+        }
+        match d {
+            0 => {
+                routes.push(("target(long-only).compare_near_eq(short)", guarded(|| t.compare_near_eq(&snb))?));
+                if !equal {
+                    routes.push(("target(long-only).compare_unequal_near_eq(short)", guarded(|| t.compare_unequal_near_eq(&snb))?));
+                }
+            }
+            -1 => routes.push(("target(long-only).compare_unequal_near_lt(short)", guarded(|| t.compare_unequal_near_lt(&snb))?)),
+            1 => routes.push(("target(long-only).compare_unequal_near_gt(short)", guarded(|| t.compare_unequal_near_gt(&snb))?)),
+            _ => {}
+        }
+        // the other direction: a target that last held the short operand, compared with the long-only one
+        let mut tb = FuzzyHashCompareTarget::from(&lna);
+        guarded(|| tb.init_from(&snb))?;
+        routes.push(("target(init_from short over long-only).compare(long-only)", guarded(|| tb.compare(&lna))?));
+        let tb2 = FuzzyHashCompareTarget::from(&dsb);
+        routes.push(("target(From<&short dual>).compare(long-only)", guarded(|| tb2.compare(&lna))?));
+    }
     // the checked position-array entry point, at the effective log block size (31 for block hash 2 at the largest size)
     {
         use ssdeep::internal_comparison::{BlockHashPositionArray, BlockHashPositionArrayImpl};
